@@ -55,9 +55,16 @@ class CountProxy:
 def keyfun(spec, flavour):
     if spec is None:
         return None
-    if flavour == "async":
+    if flavour in ("async", "lambda-coro", "object"):
         async def k(x):
             return apply_fn(spec, [x])
+        if flavour == "lambda-coro":
+            return lambda x: k(x)                  # a plain function handing out a coroutine
+        if flavour == "object":
+            class K:
+                async def __call__(self, x):       # an object whose __call__ is async
+                    return apply_fn(spec, [x])
+            return K()
         return k
     return lambda x: apply_fn(spec, [x])
 
@@ -75,6 +82,8 @@ def run_impl(items, key, flavour, ops):
     async def go():
         for op in ops:
             try:
+                if obs and obs[-1][0] == "new" and not (obs[-1][1] is None or isinstance(obs[-1][1], (int, tuple, bool, Obj))):
+                    obs[-1] = ("error", "key-type", "groupby handed out a key of type %s" % type(obs[-1][1]).__name__)
                 if op[0] == "drop":
                     # the caller lets go of the groupby object and keeps only the groups it has
                     holder[0] = None
@@ -511,7 +520,7 @@ def run(tier, seed):
     fails = 0
     lens = {}
     for items, key, ops in cases:
-        flavour = rng.choice(["sync", "async"])
+        flavour = rng.choice(["sync", "async", "lambda-coro", "object"])
         obs, pulls, closes = run_impl(items, key, flavour, ops)
         adv_only = builtins.all(o[0] in ("adv", "grp", "drop") for o in ops)
         std = run_std(items, key, ops) if adv_only else None
